@@ -268,9 +268,17 @@ class Runner:
         for s in slots:
             s.start()
         results = []
+        stop_early = bool(os.environ.get('VERIF_STOP_ON_VIOLATION'))      # used by the seed regression only
+        known = set(known_for(self.check.property_id))
         while len(results) < len(cases):
             try:
-                results.append(self.done.get(timeout=1))
+                item = self.done.get(timeout=1)
+                results.append(item)
+                if stop_early and any(v.get('mechanism') not in known for v in item[1].get('violations', [])):
+                    with self.todo.mutex:
+                        dropped = len(self.todo.queue)
+                        self.todo.queue.clear()
+                    cases = cases[:len(cases) - dropped]
             except queue.Empty:
                 if not any(s.is_alive() for s in slots) and self.done.empty():
                     break
@@ -356,7 +364,7 @@ def run_check(check_cls, tier, seed, replay=None):
         print(f'KNOWN-FINDING: property={prop} {mech}: {known[mech]["what"]} '
               f'({len(hits)} case(s) this run, e.g. case {hits[0][0].get("id")})')
     unmet = check.floors(agg)
-    missing = len(cases) - len(results)
+    missing = 0 if os.environ.get('VERIF_STOP_ON_VIOLATION') else len(cases) - len(results)
     if missing:
         unmet.append(f'{missing} cases produced no result')
     if runner.fatal:
